@@ -47,21 +47,39 @@ const (
 )
 
 func migrateInvoiceRates(inv *bill.Invoice) {
+	for _, tc := range invoiceTaxCombos(inv) {
+		migrateInvoiceTaxCombo(tc)
+	}
+}
+
+// invoiceTaxCombos gathers the tax combos of all the invoice's lines, discounts,
+// and charges, ignoring any null rows that have not been checked yet.
+func invoiceTaxCombos(inv *bill.Invoice) []*tax.Combo {
+	var sets []tax.Set
 	for _, line := range inv.Lines {
-		for _, tax := range line.Taxes {
-			migrateInvoiceTaxCombo(tax)
+		if line != nil {
+			sets = append(sets, line.Taxes)
 		}
 	}
 	for _, line := range inv.Discounts {
-		for _, tax := range line.Taxes {
-			migrateInvoiceTaxCombo(tax)
+		if line != nil {
+			sets = append(sets, line.Taxes)
 		}
 	}
 	for _, line := range inv.Charges {
-		for _, tax := range line.Taxes {
-			migrateInvoiceTaxCombo(tax)
+		if line != nil {
+			sets = append(sets, line.Taxes)
 		}
 	}
+	var list []*tax.Combo
+	for _, set := range sets {
+		for _, tc := range set {
+			if tc != nil {
+				list = append(list, tc)
+			}
+		}
+	}
+	return list
 }
 
 const oldExtKeyExemptionCode cbc.Key = "pt-exemption-code"
@@ -272,25 +290,9 @@ func migrateTaxIDZoneToLines(inv *bill.Invoice) {
 		return
 	}
 
-	for _, line := range inv.Lines {
-		for _, tc := range line.Taxes {
-			if tc.Category == tax.CategoryVAT {
-				tc.Ext = ext
-			}
-		}
-	}
-	for _, line := range inv.Discounts {
-		for _, tc := range line.Taxes {
-			if tc.Category == tax.CategoryVAT {
-				tc.Ext = ext
-			}
-		}
-	}
-	for _, line := range inv.Charges {
-		for _, tc := range line.Taxes {
-			if tc.Category == tax.CategoryVAT {
-				tc.Ext = ext
-			}
+	for _, tc := range invoiceTaxCombos(inv) {
+		if tc.Category == tax.CategoryVAT {
+			tc.Ext = ext
 		}
 	}
 }
